@@ -394,7 +394,7 @@ func fuzzy(elems []any, nonTerminals []lex.Token, defaultField string) ([]any, [
 	}
 
 	distance, ok := elems[2].(*expr.Expression)
-	if !ok {
+	if !ok || !isNumber(distance) {
 		return elems, nonTerminals, false
 	}
 
@@ -439,7 +439,7 @@ func boost(elems []any, nonTerminals []lex.Token, defaultField string) ([]any, [
 	}
 
 	power, ok := elems[2].(*expr.Expression)
-	if !ok {
+	if !ok || !isNumber(power) {
 		return elems, nonTerminals, false
 	}
 
@@ -501,6 +501,19 @@ func rangeop(elems []any, nonTerminals []lex.Token, defaultField string) ([]any,
 
 func drop[T any](stack []T, i int) []T {
 	return stack[:len(stack)-i]
+}
+
+// isNumber reports whether the expression is a number written in the query (an int or float
+// literal), as opposed to any expression that merely prints like one: a quoted "3", +2, -(2).
+func isNumber(e *expr.Expression) bool {
+	if e.Op != expr.Literal {
+		return false
+	}
+	switch e.Left.(type) {
+	case int, float64:
+		return true
+	}
+	return false
 }
 
 func toPositiveFloat(in string) (f float64, err error) {
